@@ -5,6 +5,6 @@ pid=$1; k=$2; chk=${3:-$pid}
 wt=/tmp/try-$pid-$k-$chk
 git -C /repo worktree remove --force $wt >/dev/null 2>&1
 git -C /repo worktree add --detach $wt HEAD >/dev/null 2>&1 || exit 2
-(cd $wt && git apply /tmp/mut-out/$pid/$k/patch.diff) || { echo "patch does not apply"; git -C /repo worktree remove --force $wt; exit 2; }
+(cd $wt && (git apply /tmp/mut-out/$pid/$k/patch.diff 2>/dev/null || git apply --3way /tmp/mut-out/$pid/$k/patch.diff)) || { echo "patch does not apply"; git -C /repo worktree remove --force $wt; exit 2; }
 VERIF_REPO=$wt PYTHONPATH=$wt/src ./check $chk 2>&1 | grep -E "^VIOLATION|^  ->|^\[C" | cut -c1-260
 git -C /repo worktree remove --force $wt >/dev/null 2>&1
